@@ -50,6 +50,11 @@ def cases(tier: str, seed: int) -> List[Dict[str, Any]]:
     for w in widths:
         for m in _pow2grid(1 / 8, 4, 8 if th else 4):
             out.append({"op": "softmax", "width": w, "mult": m, "seed": seed})
+    # half-precision softmax at the corners of the range (the gradient scale reaches width/mult = 32768)
+    for w in (16, 2048, 4096):
+        for m in (1 / 8, 1 / 4, 1.0, 4.0):
+            for dt in ("float16", "bfloat16"):
+                out.append({"op": "softmax", "width": w, "mult": m, "seed": seed, "dtype": dt})
     seqs = [16, 64, 256, 1024] + ([32, 512] if th else [])
     heads = [16, 64, 128] + ([32] if th else [])
     for s in seqs:
@@ -143,9 +148,10 @@ def run_case(case: Dict[str, Any]) -> Dict[str, Any]:
         if op == "softmax":
             wd = case["width"]
             rows = max(N // wd, 64)
-            x = torch.randn(rows, wd, generator=g).requires_grad_(True)
+            sdt = getattr(torch, case.get("dtype", "float32"))
+            x = torch.randn(rows, wd, generator=g).to(sdt).requires_grad_(True)
             y = U.softmax(x, dim=-1, mult=case["mult"], constraint=None)
-            (gx,) = torch.autograd.grad(y, x, torch.randn(y.shape, generator=g))
+            (gx,) = torch.autograd.grad(y, x, torch.randn(y.shape, generator=g).to(sdt))
             check("output_rms", rms(y), 0.55, 1.35)
             check("grad_rms", rms(gx), 0.55, 1.35)
         elif op == "attention":
